@@ -26,6 +26,50 @@ type c05Prog struct {
 	name  string
 	files map[string]string // name -> content
 	args  []string          // fc arguments ("@foi" = pkg_all.foi)
+	free  int               // free-running repetitions with the unhooked binary (0 = 20)
+}
+
+// c05DecompositionFamily: one function with two un-annotated parameters whose types come from a slice
+// literal of two pairs [A; B], A and B ranging over all pairs over {p, q, 1, "s"} - so that unifying A with
+// B decomposes into up to two component relations that may agree, be independent, or CONFLICT (p = int and
+// p = string; p = any and p = int through a package_info sink) - followed by nothing / a sink call on (p, q)
+// / on (q, p).  Derived relations of one round are where an order-dependent merge (first one wins) hides;
+// well-typed programs never produce conflicting ones, and rejected or silently resolved programs must be
+// deterministic as well.
+func c05DecompositionFamily(thorough bool) []c05Prog {
+	atoms := []string{"p", "q", "1", "\"s\""}
+	var shapes []string
+	for _, x := range atoms {
+		for _, y := range atoms {
+			shapes = append(shapes, "("+x+", "+y+")")
+		}
+	}
+	var out []c05Prog
+	add := func(name, body string) {
+		src := "package main\n\npackage_info _ =\n  let sink: (any*int)->()\n\nlet f p q d =\n" + body + "  (p, q, d)\n"
+		out = append(out, c05Prog{name: "decomposition:" + name, files: map[string]string{"t.fo": src}, args: []string{"t.fo"}, free: 3})
+	}
+	for i, a := range shapes {
+		hasVarA := strings.Contains(a, "p") || strings.Contains(a, "q")
+		// through an intermediate un-annotated variable d that first gets the composite type A and then meets
+		// the sink's (any*int): the component relations are DERIVED in a later round of the resolver
+		if hasVarA {
+			add(fmt.Sprintf("[d; %s] sink d", a), "  let a = [d; "+a+"]\n  sink d\n")
+			add(fmt.Sprintf("sink d [d; %s]", a), "  sink d\n  let a = [d; "+a+"]\n")
+		}
+		for j, b := range shapes {
+			if i == j || !(hasVarA || strings.Contains(b, "p") || strings.Contains(b, "q")) {
+				continue
+			}
+			// directly
+			add(fmt.Sprintf("[%s; %s]", a, b), "  let a = ["+a+"; "+b+"]\n")
+			// through d
+			if thorough || (i+j)%2 == 0 {
+				add(fmt.Sprintf("[d; %s] [d; %s]", a, b), "  let a = [d; "+a+"]\n  let b = [d; "+b+"]\n")
+			}
+		}
+	}
+	return out
 }
 
 func c05Programs(thorough bool) []c05Prog {
@@ -131,6 +175,9 @@ func checkC05(c *core.Ctx) {
 		c.NotExhaustive("range over a map outside dict.Keys/Values/KVs: " + strings.Join(sites, ", ") + " (not under the scheduler; covered only by the free-running repeated runs)")
 	}
 	progs := c05Programs(c.Thorough())
+	fam := c05DecompositionFamily(c.Thorough())
+	c.Set("decomposition_family_programs", len(fam))
+	progs = append(progs, fam...)
 	var wg sync.WaitGroup
 	sem := make(chan struct{}, c.Workers)
 	sitesSeen := map[string]int{}
@@ -277,6 +324,9 @@ func c05Explore(c *core.Ctx, sc *impl.Scratch, fcv, fc string, pr *c05Prog, boun
 	}
 	// free-running cross-check with the unhooked binary (real Go map order)
 	reps := 20
+	if pr.free > 0 {
+		reps = pr.free
+	}
 	for i := 0; i < reps; i++ {
 		clean()
 		r := impl.Run(dir, 20*time.Second, "", fc, args...)
